@@ -480,7 +480,8 @@ pub fn run_ops(sid: &str, tag: &Value, ops: &[Op], out: &mut dyn Write) -> usize
 /// logged, the build only at the end (`built` is "na" on the way).
 pub fn run_ops_final_only(sid: &str, tag: &Value, ops: &[Op], out: &mut dyn Write) -> usize {
     let mut n = 1;
-    writeln!(out, "{}", json!({"fam": "builder", "sid": sid, "op": "BReset", "tag": tag})).unwrap();
+    let plan: Vec<Value> = ops.iter().map(op_json).collect();
+    writeln!(out, "{}", json!({"fam": "builder", "sid": sid, "op": "BReset", "tag": tag, "plan": plan})).unwrap();
     let mut b: Option<Builder> = None;
     for (i, op) in ops.iter().enumerate() {
         let mut ev = op_json(op);
@@ -524,10 +525,13 @@ pub fn run_ops_final_only(sid: &str, tag: &Value, ops: &[Op], out: &mut dyn Writ
 /// that the orchestrator keeps related call sequences together and in order).
 pub fn run_ops_in(sid: &str, tag: &Value, ops: &[Op], out: &mut dyn Write, opens: bool) -> usize {
     let mut n = 0;
+    // the whole planned call sequence goes along (a failing call ends the execution, but a replay
+    // must run the same sequence)
+    let plan: Vec<Value> = ops.iter().map(op_json).collect();
     if opens {
-        writeln!(out, "{}", json!({"fam": "builder", "sid": sid, "op": "BReset", "tag": tag})).unwrap();
+        writeln!(out, "{}", json!({"fam": "builder", "sid": sid, "op": "BReset", "tag": tag, "plan": plan})).unwrap();
     } else {
-        writeln!(out, "{}", json!({"sid": sid, "op": "BReset", "tag": tag})).unwrap();
+        writeln!(out, "{}", json!({"sid": sid, "op": "BReset", "tag": tag, "plan": plan})).unwrap();
     }
     n += 1;
     let mut done: Vec<Op> = Vec::new();
